@@ -1236,6 +1236,16 @@ class AsyncBackgroundBatcher(Generic[A_contra, R_co]):
                 )
                 async for key, result in self.func(args):
                     fut = futs.pop(key)
+                    if isinstance(result, StopIteration):
+                        # Can neither be set on a future nor be raised
+                        # out of the caller's coroutine (it would end up
+                        # as its return value): raise it wrapped instead
+                        wrapped = RuntimeError(
+                            f"Result for {key!r} is {result!r}, which "
+                            f"can't be raised from a coroutine"
+                        )
+                        wrapped.__cause__ = result
+                        result = wrapped
                     if isinstance(result, Exception):
                         fut.set_exception(result)
                     else:
